@@ -52,3 +52,10 @@ add('C03', 'Hypothesis-generated meshes x element order 1-5 x bubble x rule degr
     'over the closed boundary including holes, for distorted/graded/rotated meshes. Sampling of meshes; the monomial basis settles all polynomials by linearity.',
     'Reference integrals from a 10x10 Gauss-Legendre conical product rule written in numpy; coordinates are centred and scaled so tolerances (1e-10) are relative; '
     'a degree-q rule is required to integrate p*r only for deg p <= q-1.')
+add('C06', 'Hypothesis-generated spectra / gradients / radii / preconditioners / settings; validity-predicate and reference-solution oracles (checker-side Cauchy step, eigen-decomposition + bracketed secular root)',
+    'Generated search over dimensions 1-40, definite / indefinite / singular / repeated / clustered spectra, gradients generic, orthogonal and nearly orthogonal '
+    'to the lowest eigenspace, radii over twelve decades, four preconditioner kinds and both inner products. Truncated CG: inside the region in the configured norm, '
+    'no worse than the Cauchy step, on the boundary / converged when it says so. Dogleg: inside and on the two-segment path. treigen.solve: global minimum from an '
+    'independent eigen-decomposition and bracketed secular root with explicit hard case; non-termination is detected by a double time limit.',
+    'Dense numpy/scipy reference; boundary norm tolerance 1e-5 (recurrence drift), model-value tolerance 1e-7*(|m*| + |g| radius); a treigen call that does not return '
+    'within 15 s and again within 45 s counts as a violation (typical call: milliseconds).')
